@@ -3,7 +3,7 @@ use core::num::NonZeroU16;
 use embassy_time::{Duration, Instant};
 use heapless::Vec;
 
-use crate::mqtt_client::outbound::Outbound;
+use crate::mqtt_client::outbound::{CONTROL_PACKET_LEN, Outbound};
 use crate::{Error, QoS, ResourceError};
 
 /// Upper bound for one MQTT keepalive round trip.
@@ -13,6 +13,19 @@ use crate::{Error, QoS, ResourceError};
 /// - how long it waits for the matching `PINGRESP`
 pub(super) const ROUND_TRIP_TIMEOUT_MS: u64 = 5_000;
 const MAX_INBOUND_QOS2: usize = 8;
+
+/// A `DISCONNECT` whose transmission has begun. It survives the cancellation of
+/// `disconnect_with()`, so that the packet is completed (never restarted) by whatever operation
+/// runs next on the connection.
+#[derive(Debug, Copy, Clone)]
+pub(super) struct Closing {
+    /// Encoded packet when it fits the dedicated control storage.
+    pub(super) inline: [u8; CONTROL_PACKET_LEN],
+    /// Offset of the encoded packet in the TX arena scratch space otherwise.
+    pub(super) arena_offset: Option<usize>,
+    pub(super) len: usize,
+    pub(super) written: usize,
+}
 
 #[derive(Debug)]
 pub(super) struct RuntimeState {
@@ -24,6 +37,7 @@ pub(super) struct RuntimeState {
     pub(super) max_qos: Option<QoS>,
     pub(super) next_ping: Option<Instant>,
     pub(super) ping_timeout: Option<Instant>,
+    pub(super) closing: Option<Closing>,
 }
 
 impl RuntimeState {
@@ -37,6 +51,7 @@ impl RuntimeState {
             max_qos: None,
             next_ping: None,
             ping_timeout: None,
+            closing: None,
         }
     }
 
@@ -44,6 +59,7 @@ impl RuntimeState {
         self.session_resumed = false;
         self.next_ping = None;
         self.ping_timeout = None;
+        self.closing = None;
     }
 
     pub(super) fn note_outbound_activity(&mut self, now: Instant) {
